@@ -2,6 +2,7 @@ import RtcModel.C07Rtp
 import RtcModel.C07Ice
 import RtcModel.C07Dtls
 import RtcModel.C07Sctp
+import RtcModel.C07SctpSt
 import RtcModel.C07Media
 import RtcModel.C07Sdp
 import RtcModel.Drv.Util
@@ -11,11 +12,15 @@ open RtcModel.C07 RtcModel.Drv
 
 def nats (l : List Nat) : String := ",".intercalate (l.map toString)
 
+/-- outcome text; after the marker `§` the model's allocation counter (stripped / compared by `handle`) -/
 def showRes (r : Res α) (f : α → String) : String :=
   match r with
-  | .ok a _ _ => "ok " ++ f a
-  | .err e _ => "err " ++ e
+  | .ok a _ n => s!"ok {f a}§{n}"
+  | .err e n => s!"err {e}§{n}"
   | .panic s => if s = "hang" then "hang" else "panic"
+
+/-- slack of the allocation tie (error objects, minimum `Vec` capacities); the harness uses the same constant -/
+def allocSlack : Nat := 512
 
 def runB (m : Cur α) (bs : List UInt8) : Res α := m (Buf.ofList bs) 0
 def runS (f : Array UInt8 → Cur α) (bs : List UInt8) : Res α := f bs.toArray (Buf.ofList []) 0
@@ -29,8 +34,6 @@ def bufStream (stream : String) : Option (List UInt8 → String) :=
   match stream with
   | "dtlsrec" => some fun bs => showRes (runB Dtls.recordDecode bs) nats
   | "dtlshs" => some fun bs => showRes (runB Dtls.handshakeDecode bs) nats
-  | "dtlsrecwalk" => some fun bs => showRes (runB Dtls.recordWalk bs) natsList
-  | "dtlshswalk" => some fun bs => showRes (runB Dtls.handshakeWalk bs) natsList
   | "chello" => some fun bs => showRes (runB Dtls.clientHelloDecode bs) nats
   | "shello" => some fun bs => showRes (runB Dtls.serverHelloDecode bs) nats
   | "hvr" => some fun bs => showRes (runB Dtls.helloVerifyDecode bs) nats
@@ -52,6 +55,14 @@ def parsePk (t : String) : Option (Nat × Nat × Bool × Array UInt8) :=
 
 def showSamples (l : List (List Nat)) : String :=
   s!"{l.length}:" ++ ";".intercalate (l.map fun s => "/".intercalate (s.map toString))
+
+def parseSctpPkt (t : String) : Option SctpSt.Pkt :=
+  match t.splitOn ":" with
+  | [c, hx, ck] => do
+    let bs ← unhex hx
+    let cookies ← (if ck = "-" then some [] else (ck.splitOn "+").mapM (fun h => (unhex h).map List.toArray))
+    some ⟨bs, c = "1", cookies⟩
+  | _ => none
 
 def handleSpecial (stream : String) (args : List String) : String :=
   match stream, args with
@@ -75,11 +86,11 @@ def handleSpecial (stream : String) (args : List String) : String :=
     | some id, some data, some profile, some bs =>
       showRes (Rtp.setExtension ⟨present = "1", profile, bs.toArray⟩ id data.toArray (Buf.ofList []) 0) hexA
     | _, _, _, _ => "bad-args"
-  | "marshal", [nc, he, el, pl, pd] =>
-    match nc.toNat?, el.toNat?, pl.toNat?, pd.toNat? with
-    | some nc, some el, some pl, some pd =>
-      showRes (Rtp.marshal nc (he = "1") el pl pd (Buf.ofList []) 0) toString
-    | _, _, _, _ => "bad-args"
+  | "marshal", [pt, nc, he, el, pl, pd] =>
+    match pt.toNat?, nc.toNat?, el.toNat?, pl.toNat?, pd.toNat? with
+    | some pt, some nc, some el, some pl, some pd =>
+      showRes (Rtp.marshal pt nc (he = "1") el pl pd (Buf.ofList []) 0) toString
+    | _, _, _, _, _ => "bad-args"
   | "stun", [hx] =>
     match unhex hx with
     | some bs => showRes (runS Ice.stunDecode bs) (fun m => nats m.digest)
@@ -105,10 +116,14 @@ def handleSpecial (stream : String) (args : List String) : String :=
     | some bs => showRes (runS (fun a => Ice.turnPacket a (known = "1")) bs)
         (fun r => match r with | [_, 2, len] => s!"fwd {len}" | _ => "nofwd")
     | none => "bad-hex"
-  | "turntcp", [bl, len, prov] =>
-    match bl.toNat?, len.toNat?, prov.toNat? with
-    | some bl, some len, some prov => showRes (Ice.turnTcpRecv bl len [prov] (Buf.ofList []) 0) toString
-    | _, _, _ => "bad-args"
+  | "tcp4571", [bl, hx] =>
+    match bl.toNat?, unhex hx with
+    | some bl, some bs => showRes (runB (Ice.tcp4571Recv bl) bs) toString
+    | _, _ => "bad-args"
+  | "turntcp", [bl, hx] =>
+    match bl.toNat?, unhex hx with
+    | some bl, some bs => showRes (runB (Ice.turnTcpRecv bl) bs) toString
+    | _, _ => "bad-args"
   | "sctp", [crc, hx] =>
     match unhex hx with
     | some bs => match runB (Sctp.handlePacket (crc = "1")) bs with
@@ -116,6 +131,28 @@ def handleSpecial (stream : String) (args : List String) : String :=
       | .err _ _ => "ok"     -- the live handler's `Err` (failed send, rejected DCEP) is "returned", like `Ok`
       | .panic s => if s = "hang" then "hang" else "panic"
     | none => "bad-hex"
+  | "sctpassoc", role :: seedT :: pks =>
+    match pks.mapM parseSctpPkt with
+    | some ps =>
+      -- role: bit 0 = client (own INIT sent, T1 running); bit 1 = the association starts Closed (as left by a dropped runner)
+      let st0 := if role = "2" ∨ role = "3" then 2 else 0
+      let seed := seedT.toNat?.getD 0
+      let s0 : SctpSt.St := if role = "1" ∨ role = "3" then { t1 := 1, hasTag := true, state := st0, seed := seed, nextTsn := seed }
+                            else { state := st0, seed := seed }
+      match SctpSt.runHistory s0 ps (Buf.ofList []) 0 with
+      | .ok ds _ _ => "ok " ++ " ".intercalate (ds.map fun d => "/".intercalate (d.map nats))
+      | .err e _ => "err " ++ e
+      | .panic s => if s = "hang" then "hang" else "panic"
+    | none => "bad-args"
+  | "dtlsctx", role :: msgSeq :: pls =>
+    match msgSeq.toNat?, pls.mapM unhex with
+    | some ms, some ps =>
+      match Dtls.datagramHistory (role = "1") { msgSeq := ms } ps (Buf.ofList []) 0 with
+      | .ok cs _ _ => "ok " ++ " ".intercalate (cs.map fun c =>
+          nats [c.recvSeq, c.msgSeq, c.incLen, c.incSeq, c.transcript, if c.postHvr then 1 else 0, if c.failed then 1 else 0])
+      | .err e _ => "err " ++ e
+      | .panic s => if s = "hang" then "hang" else "panic"
+    | _, _ => "bad-args"
   | "h264", pks =>
     match pks.mapM parsePk with
     | some ps => showRes (Media.h264Run {} ps (Buf.ofList []) 0) (fun r => " ".intercalate (r.map showSamples))
@@ -126,15 +163,27 @@ def handleSpecial (stream : String) (args : List String) : String :=
     | none => "bad-hex"
   | "sdpmid", [m] =>
     -- the live entry returns (`ret`) whatever the mid text is; a numeric 16-bit mid goes through `midUpdate`
-    match Sdp.parseDec 65535 m.toUTF8.toList with
-    | some v => showRes (Sdp.midUpdate 0 v (Buf.ofList []) 0) (fun _ => "") |>.replace "ok " "ret"
-    | none => "ret"
-  | "sdpmid", [] => "ret"
+    -- the template's sections carry mids 0, <m>, 2; `next_mid` afterwards is the fold of `midUpdate` over the numeric ones
+    let mids : List Nat := [0] ++ (match Sdp.parseDec 65535 m.toUTF8.toList with | some v => [v] | none => []) ++ [2]
+    let step := fun (acc : Option Nat) (v : Nat) => match acc with
+      | none => none
+      | some a => match Sdp.midUpdate a v (Buf.ofList []) 0 with | .ok r _ _ => some r | _ => none
+    match mids.foldl step (some 0) with
+    | some nm => s!"ret {nm}"
+    | none => "panic"
+  | "sdpmid", [] => "ret 3"
   | "sdpparse", _ => "noncompared"
   | "sdpset", _ => "noncompared"
   | "dtlslive", _ => "noncompared"
   | "srtp", _ => "noncompared"
   | "srtpflood", _ => "noncompared"
+  | "sharedudp", _ => "noncompared"
+  | "hpktbuf", _ => "noncompared"
+  | "rtcpmarshal", _ => "noncompared"
+  | "sctpflood", _ => "noncompared"
+  | "mediaflood", _ => "noncompared"
+  | "turnclient", _ => "noncompared"
+  | "sdpsdes", _ => "noncompared"
   | "udptlbuf", ms :: e0 :: ops =>
     match ms.toNat?, e0.toNat?, ops.mapM (fun t => match fields t with | [a, b] => do some (← a.toNat?, ← b.toNat?) | _ => none) with
     | some ms, some e0, some ops =>
@@ -147,12 +196,29 @@ def handleSpecial (stream : String) (args : List String) : String :=
     | none => "bad-hex"
   | _, _ => "bad-stream"
 
-def handle (stream : String) (args : List String) : String :=
+def handleCore (stream : String) (args : List String) : String :=
   match bufStream stream, args with
   | some f, [hx] =>
     match unhex hx with
     | some bs => f bs
     | none => "bad-hex"
   | _, _ => handleSpecial stream args
+
+/-- A trailing argument `A=<bytes>` is the allocator traffic the harness MEASURED for the real call; the model's own
+allocation counter `k` must cover it: measured ≤ 2·k + slack (factor 2 = `Vec` growth by doubling), else the output
+carries `a-<k>` and the line disagrees with the implementation's `a+`. This ties the `alloc` accounting of the models
+(the quantity the `allocBound_*` theorems bound) to measured bytes on every compared case. -/
+def handle (stream : String) (args : List String) : String :=
+  let (meas, args') : Option Nat × List String :=
+    match args.reverse with
+    | last :: rest => if last.startsWith "A=" then ((last.drop 2).toString.toNat?, rest.reverse) else (none, args)
+    | [] => (none, args)
+  let raw := handleCore stream args'
+  match raw.splitOn "§" with
+  | [t, k] =>
+    match meas, k.toNat? with
+    | some m, some k => if m ≤ 2 * k + allocSlack then t ++ " a+" else t ++ s!" a-{k}"
+    | _, _ => t
+  | _ => raw
 
 end RtcModel.Drv.C07
